@@ -281,7 +281,7 @@ def specs_for(ctx, n):
 
 
 def run(ctx, rep, model=True):
-    n = 8 if ctx.quick else 60
+    n = 14 if ctx.quick else 80
     with pools.controlled():
         for i, spec in enumerate(specs_for(ctx, n)):
             names = dedup_names(spec["fields"])
